@@ -71,6 +71,7 @@ class VirtualLoop(asyncio.SelectorEventLoop):
         self.tasks = []             # every Task created
         self.exc_log = []           # contexts passed to the loop exception handler
         self.jumps = 0
+        self.task_hook = None       # callable(task) invoked for every task created
         self.set_task_factory(self._factory)
         self.set_exception_handler(self._on_exc)
 
@@ -117,6 +118,8 @@ class VirtualLoop(asyncio.SelectorEventLoop):
             task = asyncio.Task(coro, loop=loop, context=context)
         if loop.track:
             loop.tasks.append(task)
+        if loop.task_hook is not None:
+            loop.task_hook(task)
         return task
 
     # ---- inspection helpers ----
